@@ -156,6 +156,16 @@ def mk_table(aa, starts):
     return bs.CodonTable(d, st)
 
 
+_BIG = {}
+
+
+def _big_alph(n):
+    bs = _bs()
+    if n not in _BIG:
+        _BIG[n] = bs.Alphabet(range(n))
+    return _BIG[n]
+
+
 def base_alph(b):
     bs = _bs()
     if b == 4:
@@ -316,7 +326,24 @@ def apply_real(obj, op, a, tables=None, variant=0):
                 detail = "table[codon] disagrees with codon_dict()"
                 aa = byname
             st = sorted(16 * int(c[0]) + 4 * int(c[1]) + int(c[2]) for c in ct.start_codons(code=True))
-            out = {"aa": aa, "starts": st}
+
+            def report(t):
+                return [PROT.index(t["ACGT"[n // 16] + "ACGT"[(n % 16) // 4] + "ACGT"[n % 4]]) for n in range(64)]
+
+            def starts_of(t):
+                return sorted(16 * int(c[0]) + 4 * int(c[1]) + int(c[2]) for c in t.start_codons(code=True))
+
+            # tables derived from this one must not change it (the translation of every other
+            # sequence is a lookup in "the chosen codon table")
+            d1 = ct.with_codon_mappings({"AAA": PROT[(aa[0] + 1) % 23]})
+            d2 = ct.with_start_codons(["AAA"])
+            out = {"aa": aa, "starts": st, "derived": report(d1), "derivedStarts": starts_of(d2),
+                   "aaAfter": report(ct), "startsAfter": starts_of(ct)}
+        elif op == "big_seq":
+            n, syms = a
+            alph = _big_alph(int(n))
+            seq = bs.GeneralSequence(alph, [int(x) for x in syms])
+            out = {"codes": [int(x) for x in seq.code.tolist()], "symbols": [int(x) for x in seq.symbols]}
         elif op == "fuse":
             b, k, km = a
             ka = mk_kmer_alph(b, k, [])
@@ -359,7 +386,7 @@ def apply_real(obj, op, a, tables=None, variant=0):
 
 
 _HAS_OUT = {"str", "len", "eq", "copy", "isvalid", "encode", "decode", "encode_multiple", "decode_multiple",
-            "extends", "map", "translate", "fuse", "split", "kmers", "table", "kencode", "kdecode"}
+            "extends", "map", "translate", "fuse", "split", "kmers", "table", "kencode", "kdecode", "big_seq"}
 
 
 def oc_ok(exp, obs):
@@ -379,7 +406,13 @@ def compare(op, a, exp, obs):
         if has:
             e, o = exp["out"], obs["out"]
             if op == "table":
-                ok = e["aa"] == o["aa"] and sorted(e["starts"]) == sorted(o["starts"])
+                ok = (e["aa"] == o["aa"] and sorted(e["starts"]) == sorted(o["starts"])
+                      and list(e["derived"]) == list(o["derived"])
+                      and sorted(e["derivedStarts"]) == sorted(o["derivedStarts"])
+                      and list(e["aaAfter"]) == list(o["aaAfter"])
+                      and sorted(e["startsAfter"]) == sorted(o["startsAfter"]))
+            elif op == "big_seq":
+                ok = list(e["codes"]) == list(o["codes"]) and list(e["symbols"]) == list(o["symbols"])
             elif op == "translate" and not a[2]:
                 ok = [list(x) for x in e] == [list(x) for x in o]
             else:
@@ -805,7 +838,7 @@ def _read_tables(path):
 _KEEP = ("op", "a", "oc", "kind", "alph", "codes", "out")
 _NEED_OPS = {"construct", "str", "len", "get", "setsym", "setmany", "add", "reverse", "eq", "copy", "isvalid",
              "complement", "setcode", "encode", "decode", "encode_multiple", "decode_multiple", "extends",
-             "map", "translate", "table", "fuse", "split", "kmers", "kencode", "kdecode"}
+             "map", "translate", "table", "fuse", "split", "kmers", "kencode", "kdecode", "big_seq"}
 
 
 def run(ctx):
